@@ -466,7 +466,7 @@ func TestStressStandby(t *testing.T) {
 // Real timers are involved, so the verdict is only taken when the measured times leave
 // no doubt (the primary was released at least 60 ms after start+T); otherwise inconclusive.
 func TestThresholdFromStart(t *testing.T) {
-	man := hx.NewManual(t, false, "timed scenario: always_standby, threshold 300 ms, secondary done at 200 ms, primary done at 500..550 ms; run 6x concurrently")
+	man := hx.NewManual(t, false, "timed scenario: always_standby, threshold 300 ms, secondary done at 200 ms, primary done at 460..500 ms; run 6x concurrently")
 	man.Case("threshold-from-start", func(ctx *hx.Ctx) *hx.Failure {
 		type out struct {
 			got            string
@@ -491,7 +491,7 @@ func TestThresholdFromStart(t *testing.T) {
 				var pAt atomic.Int64
 				go func() { time.Sleep(200 * time.Millisecond); close(s.gate) }()
 				go func() {
-					time.Sleep(time.Duration(500+10*i) * time.Millisecond)
+					time.Sleep(time.Duration(460+8*i) * time.Millisecond) // well after the threshold (300 ms), before secondary-completion + threshold (500 ms)
 					pAt.Store(int64(time.Since(start)))
 					close(p.gate)
 				}()
